@@ -587,7 +587,7 @@ def subchecks():
             name="pickle-twin",
             run_case=run_pickle_twin,
             strategy=lambda tier: twin_case(tier),
-            examples={"quick": 4000, "thorough": 60000},
+            examples={"quick": 8000, "thorough": 60000},
             case_timeout=30.0,
         ),
         SubCheck(
